@@ -121,6 +121,15 @@ func (w *l1World) runReplicas(bc blockCtx, raw [][]byte, stub []node.StubOp, res
 			}
 		}
 	}
+	if r.Chance(1, 4) {
+		// the exported genesis is observable too (and the order of its lists reaches InitChain of a restarted chain)
+		st := w.n.ExportAppState()
+		for _, rp := range w.replicas {
+			if d := diffState(st, rp.n.ExportAppState()); d != "" {
+				return w.fail(mismatch{"replica.export-diverged", "l1-replica-export:" + rp.kind, []string{"C18"}, fmt.Sprintf("the exported genesis of the L1 replica (%s) differs after height %d: %s", rp.kind, bc.Height, d)})
+			}
+		}
+	}
 	w.r.Probe("replica.compared")
 	return nil
 }
@@ -251,6 +260,14 @@ func (w *l2World) runReplicas(bc blockCtx, raw [][]byte, host []node.HostSetUpda
 		for _, name := range []string{authtypes.StoreKey, banktypes.StoreKey, opchildtypes.StoreKey, oracletypes.StoreKey} {
 			if node.StoreDigest(ca, w.n.Keys[name]) != node.StoreDigest(cb, rp.n.Keys[name]) {
 				return w.fail(mismatch{"replica.store-diverged", "l2-replica-store:" + name, []string{"C18"}, fmt.Sprintf("store %s of the L2 replica (%s) differs after height %d", name, rp.kind, bc.Height)})
+			}
+		}
+	}
+	if r.Chance(1, 4) {
+		st := w.n.ExportAppState()
+		for _, rp := range w.replicas {
+			if d := diffState(st, rp.n.ExportAppState()); d != "" {
+				return w.fail(mismatch{"replica.export-diverged", "l2-replica-export:" + rp.kind, []string{"C18"}, fmt.Sprintf("the exported genesis of the L2 replica (%s) differs after height %d: %s", rp.kind, bc.Height, d)})
 			}
 		}
 	}
